@@ -112,6 +112,25 @@ class Pki:
         if os.getpid() == self.owner:
             shutil.rmtree(self.dir, ignore_errors=True)
 
+    def _sign_with_dates(self, csr, ca_cert, ca_key, extfile, out, start, end, serial):
+        d = tempfile.mkdtemp(prefix='ca-', dir=self.dir)
+        try:
+            os.mkdir(os.path.join(d, 'newcerts'))
+            open(os.path.join(d, 'index.txt'), 'w').close()
+            with open(os.path.join(d, 'serial'), 'w') as f:
+                h = '%X' % serial
+                f.write(('0' + h if len(h) % 2 else h) + '\n')
+            cfg = os.path.join(d, 'ca.cnf')
+            with open(cfg, 'w') as f:
+                f.write('[ ca ]\ndefault_ca = CA_default\n[ CA_default ]\ndir = %s\ndatabase = $dir/index.txt\n'
+                        'new_certs_dir = $dir/newcerts\nserial = $dir/serial\ndefault_md = sha256\npolicy = policy_any\n'
+                        'unique_subject = no\n[ policy_any ]\ncommonName = supplied\norganizationName = optional\n'
+                        'countryName = optional\n' % d)
+            _openssl(['ca', '-batch', '-config', cfg, '-notext', '-cert', ca_cert, '-keyfile', ca_key, '-in', csr,
+                      '-out', out, '-startdate', start, '-enddate', end, '-extfile', extfile])
+        finally:
+            shutil.rmtree(d, ignore_errors=True)
+
     def leaf(self, situation, host):
         """certificate file an origin of the given situation presents for CONNECT host `host`"""
         name = 'leaf-%s-%s.pem' % (situation, hashlib.sha1(host.encode()).hexdigest()[:12])
@@ -139,10 +158,13 @@ class Pki:
                         '-set_serial', str(int(hashlib.sha1(name.encode()).hexdigest()[:12], 16)),
                         '-extfile', ext, '-out', tmp]
                 if situation == 'expired':
-                    args += ['-not_before', '20200101000000Z', '-not_after', '20200201000000Z']
+                    # `openssl x509 -not_before/-not_after` exists only in OpenSSL >= 3.4; `openssl ca` takes
+                    # explicit validity dates in every version (the box has 3.0 and 3.5 CLIs on different PATHs)
+                    self._sign_with_dates(csr, ca_c, ca_k, ext, tmp, '20200101000000Z', '20200201000000Z',
+                                          int(hashlib.sha1(name.encode()).hexdigest()[:12], 16))
                 else:
                     args += ['-days', '30']
-                _openssl(args)
+                    _openssl(args)
             os.replace(tmp, path)
         finally:
             for p in (ext, csr, tmp):
